@@ -357,6 +357,102 @@ def any_expect(stmts):
   return False
 
 
+# one function reachable under several attribute names of its class (`run = execute` in the class body; a subclass
+# inherits all of them): whichever name spells it in the text, it is that one function object that is configured, so
+# instances - made through a reference to the class that existed before the method was configured, through one written
+# afterwards, or through the registry - run it with the configured value under every one of its attribute names; two
+# spellings bound in turn address one configurable (the later value holds).  The package is written for the case (the
+# fixed world of the generator has no such class); a finite table on the real code, judged by the oracle alone.
+ALIAS_SRC = """
+class Job:
+  def __init__(self, p=0):
+    self.p = p
+
+  def execute(self, arg='default'):
+    return ('execute', self.p, arg)
+
+  run = execute   # further attribute names for the same function
+  go = execute
+
+  def other(self, z=0):
+    return ('other', self.p, z)
+
+
+class Task(Job):
+  pass
+
+
+def call(v=None):
+  return v
+"""
+ALIAS_CASES = []
+for _cls in ('Job', 'Task'):
+  for _names in (['run'], ['execute'], ['go'], ['run', 'execute'], ['execute', 'go']):
+    for _order in ('ref_first', 'method_first', 'class_first', 'method_only'):
+      for _inst in ('ref', 'registry'):
+        _i = len(ALIAS_CASES)
+        ALIAS_CASES.append({'dom': 'dyn', 'units': [], '_kind': 'methalias', 'cls': _cls, 'names': _names, 'order': _order,
+                            'inst': _inst, 'imp': ('from', 'as', 'plain')[_i % 3], 'idx': _i})
+
+
+def run_alias_case(case):
+  import importlib
+  import shutil
+  import tempfile
+  gin = core.fresh_gin()
+  root = tempfile.mkdtemp(prefix='c19al-')
+  pkg = 'c19alias%d' % case['idx']
+  os.makedirs(os.path.join(root, pkg, 'sub'))
+  for d in ((pkg,), (pkg, 'sub')):
+    open(os.path.join(root, *d, '__init__.py'), 'w').close()
+  with open(os.path.join(root, pkg, 'sub', 'al.py'), 'w') as f:
+    f.write(ALIAS_SRC)
+  line, nm = {'from': ('from %s.sub import al' % pkg, 'al'), 'as': ('import %s.sub.al as xx' % pkg, 'xx'),
+              'plain': ('import %s.sub.al' % pkg, pkg + '.sub.al')}[case['imp']]
+  cls = case['cls']
+  ref = '%s.call.v = @%s.%s()' % (nm, nm, cls)
+  meth = ['%s.%s.%s.arg = %d' % (nm, cls, a, 10 + i) for i, a in enumerate(case['names'])]
+  body = {'ref_first': [ref] + meth, 'method_first': meth + [ref], 'class_first': ['%s.%s.p = 7' % (nm, cls)] + meth + [ref],
+          'method_only': meth + ([ref] if case['inst'] == 'ref' else [])}[case['order']]
+  text = '\n'.join(['from __gin__ import dynamic_registration', line] + body) + '\n'
+  facts = {'text': text, 'want': 10 + len(case['names']) - 1, 'want_p': 7 if case['order'] == 'class_first' else 0}
+  saved_path = list(sys.path)
+  sys.path.insert(0, root)
+  try:
+    try:
+      gin.parse_config(text)
+      mod = importlib.import_module(pkg + '.sub.al')
+      facts['one_function'] = mod.Job.run is mod.Job.execute is mod.Job.go is mod.Task.run
+      obj = gin.get_configurable(mod.call)() if case['inst'] == 'ref' else gin.get_configurable(getattr(mod, cls))()
+      facts['is_instance'] = type(obj) is getattr(mod, cls) or isinstance(obj, getattr(mod, cls))
+      facts['p'] = obj.p
+      facts['got'] = {a: getattr(obj, a)()[2] for a in ('execute', 'go', 'run')}
+      facts['other'] = obj.other()[2]
+    except Exception as e:  # pylint: disable=broad-except
+      facts['err'] = '%s: %s' % (type(e).__name__, (str(e).splitlines() or [''])[0])
+  finally:
+    sys.path[:] = saved_path
+    for m in [m for m in sys.modules if m == pkg or m.startswith(pkg + '.')]:
+      del sys.modules[m]
+    shutil.rmtree(root, ignore_errors=True)
+  return {'err': None, 'bindings': [], 'facts': facts}
+
+
+def alias_oracle(case, f):
+  what = (f'{case["cls"]}.execute is also {case["cls"]}.run and {case["cls"]}.go (one function); configured as '
+          f'{case["names"]} ({case["order"]}, {case["imp"]} import), instance made through the {case["inst"]}')
+  if 'err' in f:
+    return f'{what}: {f["err"]}\n{f["text"]}'
+  if not f.get('one_function') or not f.get('is_instance'):
+    return f'harness: {what}: {f}'
+  if f['got'] != {a: f['want'] for a in ('execute', 'go', 'run')}:
+    return (f'{what}: calling it on the instance under its attribute names gives {f["got"]}, the configured value is '
+            f'{f["want"]} whatever the name\n{f["text"]}')
+  if f['p'] != f['want_p'] or f['other'] != 0:
+    return f'{what}: the instance has p={f["p"]} (expected {f["want_p"]}), other() ran with z={f["other"]} (not configured)'
+  return None
+
+
 def gen_cases(rng, tier, boost=1):
   w, _ = get_world()
   params = dict((k, v) for k, v in w['params'])
@@ -434,6 +530,8 @@ def gen_cases(rng, tier, boost=1):
       if LISTS:
         case['_prereg_lists'] = {str(o): list(v) for o, v in LISTS.items()}
     yield case
+  # (the table comes last: other properties' checks draw from the head of this stream)
+  yield from ALIAS_CASES
 
 
 # scopes a reference may be written under (`@scope/ref()`); the model keeps the index
@@ -507,6 +605,8 @@ def skip_kw(case):
 
 
 def run_impl(case):
+  if case.get('_kind') == 'methalias':
+    return run_alias_case(case)
   norm_case(case)
   res = _run_once(case, False)
   if len(case.get('_prog') or []) >= 2 and res.get('err') is None:
@@ -737,6 +837,8 @@ def _canon_model(model):
 
 
 def compare(case, impl, model):
+  if case.get('_kind') == 'methalias':
+    return None
   if 'bindings' not in model:
     return f'driver error: {model}'
   if impl['err'] != model['err']:
@@ -784,6 +886,8 @@ def intended(case):
 
 
 def oracle(case, impl):
+  if case.get('_kind') == 'methalias':
+    return alias_oracle(case, impl['facts'])
   norm_case(case)
   want, err = intended(case)
   if impl['err'] != err:
@@ -853,6 +957,8 @@ def method_effects(case, impl):
 
 
 def nontrivial(case, impl):
+  if case.get('_kind') == 'methalias':
+    return True
   flat = []
 
   def walk(stmts, inc):
@@ -876,6 +982,9 @@ def nontrivial(case, impl):
 
 
 def tally(stats, case, impl):
+  if case.get('_kind') == 'methalias':
+    stats['methalias'] = stats.get('methalias', 0) + 1
+    return
   k = 'outcome:' + str(impl['err'])
   stats[k] = stats.get(k, 0) + 1
   stats['units'] = stats.get('units', 0) + len(case['units'])
@@ -944,6 +1053,8 @@ def _d19_classes(case):
 def classify(case, impl, model, why_oracle, why_model, findings):
   """D19: a class (or its methods) configured through two different spellings of the class, one of them for a method:
   the class is re-registered under the later spelling (earlier bindings orphaned) or the registration is refused."""
+  if case.get('_kind') == 'methalias':
+    return None
   for f in findings:
     if f['id'] != 'D19':
       continue
